@@ -170,8 +170,8 @@ def canon_impl(r):
                 oc = o
             elif o.startswith("err:io:InvalidData"):
                 oc = "invalid"
-            elif o.startswith("err:io:Other"):
-                oc = "verr"
+            elif o.startswith("err:io:Other") or o.startswith("err:io:Interrupted"):
+                oc = "verr"          # (the two kinds of error the scripted validator raises)
             elif o.startswith("err:"):
                 oc = "hangup"
         try:
@@ -615,7 +615,7 @@ def c13_cases(tier, seed):
     ok valid+msg) and the shipped bracket validator; Enter / C-j / C-m anywhere in the line"""
     rng = random.Random(seed * 307 + 5)
     n = 4000 if tier == "thorough" else 260
-    frag = ["a", "b", " ", "!!", "??", "##", "\\", "ok", "(", ")", "[", "]", "{", "}", "é", "日", "x", "!", "?", "#", "~~", "~"]
+    frag = ["a", "b", " ", "!!", "??", "##", "#@", "\\", "ok", "(", ")", "[", "]", "{", "}", "é", "日", "x", "!", "?", "#", "~~", "~"]
     bad_hist = ["foo(bar", "foo)bar", "a!!b", "x??", "tail\\", "ok go", "y~~z", "plain", "[{"]
     cases = []
     for _ in range(n):
